@@ -18,7 +18,7 @@ RULE = ('case = (profile of hashed area, batch seed); per generated area: one ev
         'bit flip of the hashed region; non-trivial area = carries at least one subpacket beyond creation time + issuer fingerprint; '
         'distinct = distinct hashed-area octet strings (digest)')
 ASSUMPTIONS = ['vf.ref.sig signer (validated against PGPy, fixtures and gpg in C02)', 'well-formedness of a subpacket body is judged by RFC 4880 5.2.3.x sizes only']
-MIN_COUNTERS = {'quick': {'areas_signed': 1400, 'accepted': 1300, 'hashdata_compared': 1300, 'bitflips': 20000, 'types_covered': 128},
+MIN_COUNTERS = {'quick': {'edited_copy_pairs': 30, 'areas_signed': 1400, 'accepted': 1300, 'hashdata_compared': 1300, 'bitflips': 20000, 'types_covered': 128},
                 'thorough': {'areas_signed': 20000, 'bitflips': 300000}}
 BUDGET = {'quick': (600, 1500), 'thorough': (1800, 3600)}
 TECHNIQUE = 'runtime monitoring: reference-signed hostile hashed areas + direct comparison of hashed octets at PGPSignature.hashdata + exhaustive bit-flip fault injection'
@@ -33,6 +33,8 @@ def cases(tier, seed):
     for prof in PROFILES:
         for b in range({'alltypes': 26, 'flags': 78, 'unknown': 10, 'mix': 16}.get(prof, 6) * n):
             cs.append({'profile': prof, 'batch': b, 'seed': seed, 'n': 10, 'flips': 90 if tier == 'quick' else 220})
+    for sn in ('ed25519_0', 'ecdsa_p256_0', 'rsa1024_0', 'dsa1024_0'):
+        cs.append({'profile': 'pairs', 'signer': sn, 'batch': 0, 'seed': seed})
     return cs
 
 
@@ -192,8 +194,61 @@ def _embedded_own(ctx, d, pgpy):
     ctx.nontrivial(d)
 
 
+def _pairs(ctx, d, pgpy):
+    """one identity carrying a certification AND a copy of it whose signed area (or header octet) was edited while signature integers and left-16
+    stay: both examined in ONE verify(key) call, in either order - the genuine one is good, the edited copy is bad, whichever comes first"""
+    signer = sigwork.signer_key(d['signer'])
+    blob = bytes(signer.pubkey)
+    pk = wire.split(blob)
+    ui = next(i for i, p_ in enumerate(pk) if p_.tag == 13)
+    si = next(i for i in range(ui + 1, len(pk)) if pk[i].tag == 2)
+    gen = pk[si].body
+    ps = RS.parse_sig(gen)
+    hl = len(ps['hashed'])
+    edits = []
+    for t, c, b, raw in ps['hsp']:
+        off = 6 + ps['hashed'].index(raw)
+        lenlen = len(raw) - 1 - len(b)
+        if t == 2:
+            e_ = bytearray(gen); e_[off + lenlen + 4] ^= 0x01; edits.append(('creation-time', bytes(e_)))
+            e_ = bytearray(gen); e_[off + lenlen] ^= 0x80; edits.append(('critical-bit', bytes(e_)))
+        if t == 27:
+            e_ = bytearray(gen); e_[off + lenlen + 1] ^= 0x0c; edits.append(('key-flags', bytes(e_)))
+    e_ = bytearray(gen); e_[1] = 0x10 if gen[1] != 0x10 else 0x12; edits.append(('type-octet', bytes(e_)))
+    e_ = bytearray(gen); e_[3] = 10 if gen[3] != 10 else 8; edits.append(('hash-octet', bytes(e_)))
+    for label, ed in edits:
+        for order in ('genuine-first', 'edited-first'):
+            pair = [gen, ed] if order == 'genuine-first' else [ed, gen]
+            nb = b''.join(p_.raw for p_ in pk[:si]) + b''.join(wire.new_hdr(2, len(x)) + x for x in pair) + b''.join(p_.raw for p_ in pk[si + 1:])
+            ctx.count('edited_copy_pairs')
+            ctx.count('evaluations')
+            where = {'signer': d['signer'], 'edit': label, 'order': order}
+            try:
+                k2 = pgpy.PGPKey.from_blob(nb)[0]
+                sv = k2.verify(k2)
+            except Exception as e:
+                ctx.outcome('pairs_refused:' + type(e).__name__)
+                continue
+            good = [bytes(x.signature._signature.__bytearray__()) for x in sv.good_signatures if not x.signature.embedded]
+            bad = [bytes(x.signature._signature.__bytearray__()) for x in sv.bad_signatures if not x.signature.embedded]
+            strip = lambda raw_: wire.split(raw_)[0].body
+            good = [strip(x) for x in good]
+            bad = [strip(x) for x in bad]
+            if ed in good:
+                ctx.fail('edited-copy-of-a-certification-listed-good', where)
+            if gen in bad:
+                ctx.fail('genuine-certification-listed-bad-next-to-an-edited-copy', where)
+            if bool(sv) and (ed in good or ed in bad or True) and ed not in bad and ed not in good:
+                ctx.observe('edited_copy_not_examined:' + label)
+    ctx.nontrivial(d)
+
+
 def run_case(ctx, d):
     import pgpy
+    if d['profile'] == 'pairs':
+        with warnings.catch_warnings():
+            warnings.simplefilter('ignore')
+            return _pairs(ctx, d, pgpy)
     if d['profile'] == 'embedded_own':
         with warnings.catch_warnings():
             warnings.simplefilter('ignore')
